@@ -4,6 +4,7 @@
 package main
 
 import (
+	"golang.org/x/tools/go/ssa"
 	"flag"
 	"fmt"
 	"os"
@@ -39,7 +40,15 @@ func main() {
 	list := flag.Bool("list", false, "list properties, rules and mutants")
 	replay := flag.String("replay", "", "replay file written by a previous violation")
 	selftest := flag.Bool("selftest", false, "run all mutants of the property (or all properties) and report")
+	wbase := flag.Bool("write-baseline", false, "write <verif>/baseline_funcs.txt from the functions of <root>")
 	flag.Parse()
+	if *wbase {
+		if err := writeBaseline(*root, *verif); err != nil {
+			fmt.Fprintln(os.Stderr, err)
+			os.Exit(2)
+		}
+		return
+	}
 
 	if *list {
 		ids := sortedProps()
@@ -112,8 +121,36 @@ func runProperty(def *PropertyDef, tier, root, verif, only, mutant string, seed 
 			return 3
 		}
 	}
-	currentOverlay = overlay
-	p, err := loadProgram(root, overlay)
+	eval := func(ov map[string][]byte) (*Ctx, error) {
+		currentOverlay = ov
+		p, err := loadProgram(root, ov)
+		if err != nil {
+			return nil, err
+		}
+		theProgram = p
+		paramBinding = map[*ssa.Parameter]ssa.Value{}
+		c := newCtx(p, def.ID, tier)
+		for _, r := range def.Rules {
+			if r.Thorough && tier != "thorough" {
+				continue
+			}
+			c.rule = r
+			n0 := len(c.Obs)
+			func() {
+				defer func() {
+					if rec := recover(); rec != nil {
+						c.add("undecided", "rule-panic", "", fmt.Sprintf("rule panicked: %v\n%s", rec, debug.Stack()), false, nil)
+					}
+				}()
+				r.Run(c)
+			}()
+			if len(c.Obs) == n0 {
+				c.add("vacuous", "no-instances", "", "rule produced no obligations", false, nil)
+			}
+		}
+		return c, nil
+	}
+	c, err := eval(overlay)
 	if err != nil {
 		fmt.Fprintf(os.Stderr, "cannot load program: %v\n", err)
 		if mut != nil {
@@ -124,23 +161,41 @@ func runProperty(def *PropertyDef, tier, root, verif, only, mutant string, seed 
 		fmt.Printf("UNDECIDED property=%s reason=load-failure\n", def.ID)
 		return 2
 	}
-	c := newCtx(p, def.ID, tier)
-	for _, r := range def.Rules {
-		if r.Thorough && tier != "thorough" {
-			continue
+	// If something is not discharged on the tree as written, evaluate once more on the normalised
+	// tree (calls to functions outside the baseline symbol table inlined); see normalize.go.
+	if kf, kerr := loadFindings(filepath.Join(verif, "known_findings.json")); kerr == nil {
+		known := map[string]bool{}
+		for _, f := range kf {
+			if f.Status == "known" && f.Property == def.ID {
+				known[f.Key] = true
+			}
 		}
-		c.rule = r
-		n0 := len(c.Obs)
-		func() {
-			defer func() {
-				if rec := recover(); rec != nil {
-					c.add("undecided", "rule-panic", "", fmt.Sprintf("rule panicked: %v\n%s", rec, debug.Stack()), false, nil)
+		open := 0
+		for _, o := range c.Obs {
+			if o.Status != "discharged" && !known[o.Key] {
+				open++
+			}
+		}
+		if open > 0 {
+			if baseline, berr := loadBaseline(verif); berr == nil {
+				nov, nlog, nerr := normalize(root, overlay, baseline)
+				if nerr != nil {
+					c.Note("normalisation pre-pass failed: %v", nerr)
+				} else if len(nlog) > 0 {
+					if d := os.Getenv("IPCHECK_DUMP"); d != "" {
+						os.MkdirAll(d, 0o755)
+						for name, b := range nov {
+							os.WriteFile(filepath.Join(d, strings.ReplaceAll(strings.TrimPrefix(name, root+"/"), "/", "_")), b, 0o644)
+						}
+					}
+					if c2, err2 := eval(nov); err2 == nil {
+						c2.Note("%d obligation(s) were not discharged on the tree as written; the verdict below is for the normalised tree (%d step(s): %s)", open, len(nlog), strings.Join(nlog, "; "))
+						c = c2
+					} else {
+						c.Note("normalised tree does not load: %v", err2)
+					}
 				}
-			}()
-			r.Run(c)
-		}()
-		if len(c.Obs) == n0 {
-			c.add("vacuous", "no-instances", "", "rule produced no obligations", false, nil)
+			}
 		}
 	}
 	if only != "" {
